@@ -120,6 +120,29 @@
         kani::cover!(x == Some(b'+'), "plus");
     }
 
+//# ob name=memchr_contract fn=utils::memchr kind=bounded bound="all byte slices of length <= 6 and every needle byte" stmt="memchr returns the first index at which the needle occurs and None iff it does not occur - the contract that the Verus unit assumes for it (its body is iter().position(closure), which has no Verus specification)"
+    #[kani::proof]
+    #[kani::unwind(8)]
+    fn memchr_contract() {
+        let data: [u8; 6] = kani::any();
+        let len: usize = kani::any();
+        kani::assume(len <= 6);
+        let needle: u8 = kani::any();
+        let h = &data[..len];
+        match memchr(h, needle) {
+            Some(i) => {
+                assert!(i < len && h[i] == needle);
+                let mut j = 0;
+                while j < i { assert!(h[j] != needle); j += 1; }
+            }
+            None => {
+                let mut j = 0;
+                while j < len { assert!(h[j] != needle); j += 1; }
+            }
+        }
+        kani::cover!(len == 6, "full length");
+    }
+
 //# ob name=whitespace_rules_native role=native_bounded fn=compiler::lexer::{tokenize_root,handle_tail_ws,skip_newline_if_trim_blocks,lstrip_block,should_lstrip_block,handle_raw_tag} kind=bounded bound="templates text-tag-text and text-tag-text-tag-text over 11 text segments (blanks, tabs, LF, CRLF, mixed) x tags {variable, block, comment, raw} with every marker in {none, -, +} on either side x 8 settings of trim_blocks / lstrip_blocks / keep_trailing_newline, compared with an independent model of the rules (about 1.5*10^5 templates); plus custom delimiter sets with the same program" stmt="text outside tags is reproduced byte for byte; the only characters removed are one trailing newline of the template (unless keep_trailing_newline), all whitespace adjacent to a '-' marker, the single newline (LF or CRLF) after a block or comment tag under trim_blocks, and horizontal whitespace between a line start and a block or comment tag under lstrip_blocks, where '+' switches the latter two off for that side; rewriting the tags to other delimiters does not change the render"
     fn whitespace_rules_native() {
         use crate::Environment;
